@@ -63,6 +63,9 @@ func (interp *Interpreter) SingleStepStateTransition(pc ProgramCounter) (ExitRea
 		return exitReason, 0
 	case HOST_CALL: // host-call: newPC = pc
 		return exitReason, newPC
+	case PAGE_FAULT, OUT_OF_GAS:
+		// the faulting instruction did not complete: the counter stays on it (as in the block engine)
+		return exitReason, pc
 	}
 
 	if pc != newPC || exitReason == exitContinueBranchToSelf {
